@@ -51,7 +51,7 @@ Definition ops : list opsig := [
   pred "GEOSDisjoint_r" [G; G]; pred "GEOSTouches_r" [G; G]; pred "GEOSIntersects_r" [G; G]; pred "GEOSCrosses_r" [G; G];
   pred "GEOSWithin_r" [G; G]; pred "GEOSContains_r" [G; G]; pred "GEOSOverlaps_r" [G; G]; pred "GEOSEquals_r" [G; G];
   pred "GEOSEqualsIdentical_r" [G; G]; pred "GEOSCovers_r" [G; G]; pred "GEOSCoveredBy_r" [G; G];
-  pred "GEOSEqualsExact_r" [G; G; d]; pred "GEOSDistanceWithin_r" [G; G; d]; pred "GEOSRelatePattern_r" [G; G; AN 4];
+  pred "GEOSEqualsExact_r" [G; G; d]; pred "GEOSDistanceWithin_r" [G; G; d]; pred "GEOSRelatePattern_r" [G; G; AN 4]; pred "GEOSRelatePatternMatch_r" [AN 4; AN 4];
   (* measures: int status + value through an out-parameter *)
   stat "GEOSArea_r" [G]; stat "GEOSLength_r" [G]; stat "GEOSGeomGetLength_r" [G];
   stat "GEOSGeom_getXMin_r" [G]; stat "GEOSGeom_getYMin_r" [G]; stat "GEOSGeom_getXMax_r" [G]; stat "GEOSGeom_getYMax_r" [G];
